@@ -60,16 +60,27 @@ def main():
     meta["seed_confirmed"] = bool(ok_seed)
     print("seed confirmation:", meta)
     # -- 2. run the check against it
-    rc, out = sh("git status --porcelain", "/repo")
-    assert out.strip() == "", "/repo not clean: " + out
-    rc, out = sh(f"git apply {patch}", "/repo")
-    assert rc == 0, "patch does not apply to /repo: " + out
+    cmd = f"./check {prop} --tier {tier}" + (f" --only {only}" if only else "")
     t0 = time.time()
-    try:
-        cmd = f"./check {prop} --tier {tier}" + (f" --only {only}" if only else "")
-        rc, out = sh(cmd, VERIF, timeout=7200)
-    finally:
-        sh("git checkout -- .", "/repo")
+    if "--isolated" in sys.argv:
+        # development mode for running several seeds while other work is in flight: the check (from this
+        # copy of /verif, its own generated crate) is pointed at the scratch worktree with only the
+        # regression applied (VERIF_REPO) instead of patching /repo itself
+        sh("git reset -q && git checkout -- . && git clean -fdq src", wt)
+        rc, out = sh(f"git apply {patch}", wt)
+        assert rc == 0, out
+        meta["ran_against"] = "scratch worktree with patch.diff applied (VERIF_REPO=<worktree>), /repo untouched"
+        rc, out = sh(f"VERIF_REPO={wt} {cmd}", VERIF, timeout=7200)
+        sh(f"git apply {demo}", wt)
+    else:
+        rc, out = sh("git status --porcelain", "/repo")
+        assert out.strip() == "", "/repo not clean: " + out
+        rc, out = sh(f"git apply {patch}", "/repo")
+        assert rc == 0, "patch does not apply to /repo: " + out
+        try:
+            rc, out = sh(cmd, VERIF, timeout=7200)
+        finally:
+            sh("git checkout -- .", "/repo")
     meta["check_cmd"] = cmd
     meta["check_exit"] = rc
     meta["check_wall_s"] = round(time.time() - t0)
@@ -78,11 +89,13 @@ def main():
     meta["detected"] = rc == 1 and bool(meta["check_violation_lines"])
     print(out[-3000:])
     # -- 3. store
-    d = os.path.join(VERIF, "seeded", sid)
+    d = os.path.join(os.environ.get("SEED_OUT", VERIF), "seeded", sid)
     os.makedirs(d, exist_ok=True)
     shutil.copy(patch, os.path.join(d, "patch.diff"))
     shutil.copy(demo, os.path.join(d, "demo.diff"))
-    rd = os.path.join(wt, "README.md")
+    rd = os.path.join(wt, "AGENT_README.md")
+    if not os.path.exists(rd):
+        rd = os.path.join(wt, "README.md")
     if os.path.exists(rd):
         shutil.copy(rd, os.path.join(d, "AGENT_README.md"))
     json.dump(meta, open(os.path.join(d, "meta.json"), "w"), indent=1)
